@@ -614,20 +614,21 @@ impl Network {
         let mut accumulated_transactions = HashSet::new();
         let mut collected_registers = Vec::new();
         let mut valid_scratchpad: Option<Scratchpad> = None;
+        // the versions are merged as transactions only when every one of them is a transaction record
+        let mut all_are_transactions = true;
 
         if results_count > 1 {
-            let mut record_kind = None;
             info!("For record {pretty_key:?}, we have more than one result returned.");
             for (record, _) in result_map.values() {
                 let Ok(header) = RecordHeader::from_record(record) else {
+                    all_are_transactions = false;
                     continue;
                 };
-                let kind = record_kind.get_or_insert(header.kind);
-                // FIXME: the first record dictates the kind, but we should check all records are of the same kind.
-                // And somehow discard the incorrect ones.
-                if *kind != header.kind {
-                    error!("Encountered a split record for {pretty_key:?} with different RecordHeaders. Expected {kind:?} but got {:?}. Skipping",header.kind);
-                    continue;
+                // every version is taken for what its own header says: the version that happens to be
+                // visited first must not decide which of the others are looked at
+                let kind = header.kind;
+                if kind != RecordKind::Transaction {
+                    all_are_transactions = false;
                 }
 
                 match kind {
@@ -647,6 +648,7 @@ impl Network {
                                 accumulated_transactions.extend(transactions);
                             }
                             Err(_) => {
+                                all_are_transactions = false;
                                 continue;
                             }
                         }
@@ -729,7 +731,7 @@ impl Network {
         }
 
         // Return the accumulated transactions as a single record
-        if accumulated_transactions.len() > 1 {
+        if all_are_transactions && accumulated_transactions.len() > 1 {
             info!("For record {pretty_key:?} task found split record for a transaction, accumulated and sending them as a single record");
             let accumulated_transactions = accumulated_transactions
                 .into_iter()
